@@ -82,21 +82,13 @@ func c08DrawSigners(rt *rapid.T, nv int) ([]int, []int64) {
 	// more than 2/3 of nv, random subset in random order
 	min := nv*2/3 + 1
 	k := rapid.IntRange(min, nv).Draw(rt, "nSigners")
-	perm := rapid.Permutation(c08Range(nv)).Draw(rt, "signerOrder")
+	perm := rapid.Permutation(hbRange(nv)).Draw(rt, "signerOrder")
 	s := perm[:k]
 	off := make([]int64, k)
 	for i := range off {
 		off[i] = int64(rapid.IntRange(0, 50).Draw(rt, "tsOff"))
 	}
 	return s, off
-}
-
-func c08Range(n int) []int {
-	r := make([]int, n)
-	for i := range r {
-		r[i] = i
-	}
-	return r
 }
 
 func c08DrawPlan(rt *rapid.T, maxTx int) *c08Plan {
@@ -134,14 +126,14 @@ func c08DrawPlan(rt *rapid.T, maxTx int) *c08Plan {
 // ---- built world ----
 
 type c08Blk struct {
-	Blk      module.Block
-	HF       *block.V2HeaderFormat
-	BF       *block.V2BodyFormat
-	Enc      []byte // header||body as the node serializes it
-	HdrLen   int
-	NTx      int
-	NVotes   int
-	HasBTP   bool
+	Blk    module.Block
+	HF     *block.V2HeaderFormat
+	BF     *block.V2BodyFormat
+	Enc    []byte // header||body as the node serializes it
+	HdrLen int
+	NTx    int
+	NVotes int
+	HasBTP bool
 }
 
 type c08World struct {
@@ -208,9 +200,9 @@ func c08Build(p *c08Plan) *c08World {
 		}
 		w.Blks = append(w.Blks, &c08Blk{
 			Blk: blk, HF: hf, BF: bf, Enc: hbMarshal(blk), HdrLen: hb.Len(),
-			NTx:      len(bf.NormalTransactions),
-			NVotes:   c08VoteCount(bf.Votes),
-			HasBTP:   len(bf.BTPDigest) > 0,
+			NTx:    len(bf.NormalTransactions),
+			NVotes: c08VoteCount(bf.Votes),
+			HasBTP: len(bf.BTPDigest) > 0,
 		})
 		if h <= n {
 			bp := p.Blocks[h-1]
@@ -317,6 +309,7 @@ func c08Sha3OrNil(bs []byte) []byte {
 // other input is not executed any more, and the remaining sub-checks abort.
 
 const c08RunawayBytes = 1 << 30
+
 var c08GiveUp = func() time.Duration {
 	if d, err := time.ParseDuration(os.Getenv("VERIF_C08_GIVEUP")); err == nil && d > 0 {
 		return d
@@ -610,7 +603,9 @@ func c08ApplicableGrafts(rt *rapid.T, x, y *c08Blk) []string {
 		return c08Grafts
 	}
 	var out []string
-	eqL := func(a, b [][]byte) bool { return c08BodyEq(&block.V2BodyFormat{NormalTransactions: a}, &block.V2BodyFormat{NormalTransactions: b}) }
+	eqL := func(a, b [][]byte) bool {
+		return c08BodyEq(&block.V2BodyFormat{NormalTransactions: a}, &block.V2BodyFormat{NormalTransactions: b})
+	}
 	if !eqL(x.BF.NormalTransactions, y.BF.NormalTransactions) {
 		out = append(out, "normalFromY")
 	}
